@@ -21,7 +21,7 @@ MStep == /\ l <= Len(Trace) /\ l' = l + 1
          \* ... and the stress runs on the concurrent containers: a goroutine's calls on a key that only it touches are answered as if
          \* they ran alone, whatever the others do to the shared keys (no sequential witness exists otherwise)
          /\ wrong' = wrong + (IF (E.kind = "scan" /\ E.ok # (E.failing = 0)) \/ (E.kind = "close" /\ ~E.ok)
-                                  \/ (E.kind = "maps" /\ (E.incoherent # 0 \/ E.hung)) THEN 1 ELSE 0)
+                                  \/ (E.kind = "maps" /\ E.incoherent # 0) \/ E.hung THEN 1 ELSE 0)
 MonitorSpec == TraceInit /\ [][MStep]_<<l, races, lost, wrong>>
 C20_RaceFree == races = 0
 C20_AllErrorsKept == lost = 0
